@@ -4,6 +4,9 @@ import (
 	"bytes"
 	"context"
 	"sort"
+	"strings"
+
+	"github.com/ipfs/go-cid"
 
 	"github.com/fxamacker/cbor/v2"
 	"github.com/sourcenetwork/corekv"
@@ -193,4 +196,49 @@ func (tr *truth) buildState(c *commit) {
 		st[name] = v
 	}
 	c.State = st
+}
+
+const headPrefix = "/db/heads"
+
+// attached returns the cids reachable from the head entries of /db/heads (documents, fields
+// and collections) through heads and links. A block that is in /db/blocks but not reachable
+// from any head is not part of the commit graph: it is what a failed step leaves behind when
+// the caller commits its transaction anyway, not a committed change.
+func (tr *truth) attached(ctx context.Context) map[string]bool {
+	it, err := tr.store.Iterator(ctx, corekv.IterOptions{Prefix: []byte(headPrefix), KeysOnly: true})
+	if err != nil {
+		hx.Harnessf("iterate heads: %v", err)
+	}
+	var queue []string
+	for {
+		ok, err := it.Next()
+		if err != nil {
+			_ = it.Close()
+			hx.Harnessf("iterate heads: %v", err)
+		}
+		if !ok {
+			break
+		}
+		k := string(it.Key())
+		last := k[strings.LastIndex(k, "/")+1:]
+		if _, err := cid.Decode(last); err == nil {
+			queue = append(queue, last)
+		}
+	}
+	if err := it.Close(); err != nil {
+		hx.Harnessf("close head iterator: %v", err)
+	}
+	out := map[string]bool{}
+	for len(queue) > 0 {
+		id := queue[len(queue)-1]
+		queue = queue[:len(queue)-1]
+		if out[id] {
+			continue
+		}
+		out[id] = true
+		if b := tr.blocks[id]; b != nil {
+			queue = append(queue, b.Parents...)
+		}
+	}
+	return out
 }
